@@ -16,6 +16,8 @@ A program:
    ("restart": true is the old spelling of "more": [{"pre": [], "exit_us": 5000}])
 ops (times in microseconds):
   ["alarm", cbid, us] ["rm_alarm", cbid] ["watch", cbid, fd] ["rm_watch", cbid] ["idle", cbid] ["rm_idle", cbid]
+  ["churn", "alarm"|"watch"|"idle", rounds]   rounds x (register a victim, remove it, remove it again, DROP the handle, let the
+                                           loop tick via a 0-delay alarm): handle objects are freed and their addresses reused
   ["write", fd, n] ["busy", us] ["raise", "exit"|"boom"|<any kind of loop_probe.EXC_KINDS>]
 Watch callbacks read one byte of their descriptor on entry unless listed in "nodrain".
 """
@@ -290,7 +292,38 @@ def execute(prog) -> list[dict]:
         active_watch = {}  # fd key -> cbid  (client-side knowledge, used only as a validity filter)
         registered = set()
 
+        churn = {}  # chain alarm id -> (kind, rounds left, serial)
+
+        def churn_round(kind, left, serial):
+            vid = f"v{kind[0]}{serial}"
+            registered.add(vid)
+            if kind == "alarm":
+                probe.alarm(vid, 0.05, body)
+                rm = probe.remove_alarm
+            elif kind == "watch":
+                k = prog["nfd"] - 1
+                if k < 0 or k in active_watch:
+                    return
+                fd_of[vid] = k
+                probe.watch_file(vid, k, env.fdobj(k), body)
+                rm = probe.remove_watch_file
+            else:
+                probe.enter_idle(vid, body)
+                rm = probe.remove_enter_idle
+            rm(vid)
+            rm(vid)
+            probe.drop(vid)
+            if left > 1:
+                cid = f"c{kind[0]}{serial + 1}"
+                churn[cid] = (kind, left - 1, serial + 1)
+                registered.add(cid)
+                probe.alarm(cid, 0.0, body)
+                probe.drop(cid)
+
         def body(p, cbid, n):
+            if cbid in churn:
+                churn_round(*churn.pop(cbid))
+                return
             if cbid in fd_of and cbid not in nodrain:
                 env.read(fd_of[cbid], 1)
             if cbid[0] == "X":
@@ -342,6 +375,8 @@ def execute(prog) -> list[dict]:
                     if op[1] < prog["nfd"]:
                         env.write(op[1], op[2])
                         probe.rec(e="fd", op="write", fd=op[1], n=op[2], t=env.clock())
+                elif k == "churn":
+                    churn_round(op[1], op[2], sum(1 for x in registered if x.startswith("v" + op[1][0])) * 1000)
                 elif k == "busy":
                     env.busy(op[1])
                 elif k == "raise":
@@ -395,7 +430,9 @@ def horizon_us(prog) -> int:
         base = bound.get(ctx, 0)
         busy = 0
         for op in ops:
-            if op[0] == "busy":
+            if op[0] == "churn":
+                busy += op[2] * 600  # the rounds are chained by 0-delay alarms; allow 0.6 ms per round
+            elif op[0] == "busy":
                 busy += op[1]
             elif op[0] == "alarm":
                 b = base + busy + op[2]
@@ -469,6 +506,7 @@ def gen_random(rng, loop, mode, zmq_fractional=False):
     nodrain = []
     raises_left = rng.choice([0, 1, 1, 1, 2])
     raises_total = raises_left
+    churned = []
     depth = {a: 0 for a in alarms}
 
     def gen_ops(cbid, kind, d):
@@ -505,8 +543,11 @@ def gen_random(rng, loop, mode, zmq_fractional=False):
                 todo.append((i, "idle", d + 1))
             elif r < 0.84 and nfd:
                 ops.append(["write", rng.randrange(nfd), rng.choice([1, 1, 2])])
-            elif r < 0.92:
+            elif r < 0.90:
                 ops.append(["busy", rng.choice([500, 1500, 3000])])
+            elif r < 0.92 and not churned:
+                churned.append(1)
+                ops.append(["churn", rng.choice(["alarm", "alarm", "idle"]), rng.choice([20, 50, 100])])
             elif raises_left > 0:
                 raises_left -= 1
                 k = "boom"
@@ -673,25 +714,29 @@ def directed(loop, mode):
     # ExitMainLoop or by an exception raised from an alarm / watch / idle callback; then new alarms, watches and
     # idle callbacks are registered and run() is called again.  Idle callback i0 is registered before the FIRST run.
     if loop in RESTARTABLE:
+        # the raising callback is the LAST thing that happens in the first run (a1 at 1 ms, a0 at 5 ms; the watched
+        # descriptor becomes readable only when a0 writes to it), so nothing is left over for the next run
         enders = {
             "final": {},
             "alarm-exit": {"a0": [[["raise", "exit"]]]},
             "alarm-boom": {"a0": [[["raise", "boom"]]]},
-            "watch-exit": {"w0": [[["raise", "exit"]]]},
-            "watch-boom": {"w0": [[["raise", "boom"]]]},
-            "idle-exit": {"i0": [[["raise", "exit"]]]},
-            "idle-boom": {"i0": [[["raise", "boom"]]]},
-            "idle-boom-late": {"i0": [[], [["raise", "boom"]]]},
+            "watch-exit": {"a0": [[["write", 0, 1]]], "w0": [[["raise", "exit"]]]},
+            "watch-boom": {"a0": [[["write", 0, 1]]], "w0": [[["raise", "boom"]]]},
+            "idle-exit": {"i0": [[], [], [["raise", "exit"]]]},
+            "idle-boom": {"i0": [[], [], [["raise", "boom"]]]},
+            "idle-boom-first": {"i0": [[["raise", "boom"]]]},
         }
         seconds = [
             [["alarm", "b0", 0], ["alarm", "b1", 2000]],
             [["alarm", "b0", 1000], ["watch", "v0", 1], ["write", 1, 2]],
             [["idle", "j0"], ["alarm", "b0", 0], ["alarm", "b1", 20000], ["write", 0, 1]],
             [["rm_idle", "i0"], ["idle", "j0"], ["alarm", "b0", 2000]],
+            [["alarm", "b0", 20000]],  # nothing due for a while: the run begins with a long wait
+            [],  # nothing but the sentinel and exit alarms
         ]
         for ender in enders.values():
             for k, second in enumerate(seconds):
-                pre = [["idle", "i0"], ["watch", "w0", 0], ["write", 0, 1], ["alarm", "a0", 1000], ["alarm", "a1", 5000]]
+                pre = [["idle", "i0"], ["watch", "w0", 0], ["alarm", "a1", 1000], ["alarm", "a0", 5000]]
                 more = [{"pre": second, "exit_us": 20000 + TAIL_US}]
                 if k % 2 == 0:
                     more.append({"pre": [["alarm", "c0", 0], ["alarm", "c1", 1000]], "exit_us": 1000 + TAIL_US})
@@ -714,6 +759,11 @@ def directed(loop, mode):
             P(1, pre, cbs)
             if loop in RESTARTABLE:
                 out[-1]["more"] = [{"pre": [["alarm", "b0", 0]], "exit_us": 5000}]
+    # handle churn: register -> remove -> remove again -> drop the handle -> loop tick, many rounds, so that handle
+    # objects are freed and later handles are allocated at the same addresses
+    for kind, rounds in (("alarm", 120), ("watch", 80), ("idle", 80)):
+        P(1, [["idle", "i0"], ["churn", kind, rounds]], {})
+        P(2, [["watch", "w0", 0], ["alarm", "a0", 1000], ["write", 0, 1]], {"a0": [[["churn", kind, rounds]]]})
     # every callable shape and every return value for alarm, watch and idle callbacks (the watch callback must keep
     # being called: 3 bytes, one read per call)
     for shape in SHAPES:
